@@ -92,6 +92,9 @@ finding(
     witnesses={"C01": [I([["ok", {"typ": "Optional[bool]", "doc": "for name for alpha count weight factor shape input window window factor mode output gamma", "default": True}]], cells=[["numpydoc", True, False, True, True]])]},
 )
 finding("P25", ["C02", "C08"], "open", "numpydoc docstrings embedded in indented code are not recognised: descriptions, header and return are lost")
+finding("P41", ["C02", "C08"], "open", "google docstrings embedded in indented code: the return entry is not recognised (presence / type / description of the return entry are lost or merged)")
+finding("P42", ["C02", "C08", "C05"], "open", "docstring emit at indent_level>0 inserts a blank line after the first line when it is followed by a single newline: with an empty header `Args:` is separated from its entries and google descriptions are lost (2 sqlalchemy emit tests pin the blank line)")
+finding("P43", ["C02"], "open", "code-quoted default in a signature format: class/function emit it as the string '```(np.zeros(9))```' and the parser then drops the parameter's type; the un-back-ticked form '(np.zeros(9))' loses its parentheses (class) or raises ValueError (function). Excluded from C02's generator by construction (counted), exercised by C08/C14")
 finding("P26", ["C07"], "open", "doctrans drops comments inside a rewritten multi-line def header")
 finding("P27", ["C07"], "open", "doctrans turns a one-line `def f(a=1): return a` into invalid Python")
 finding("P28", ["C07"], "open", "doctrans does not recognise a raw docstring r\"\"\"...\"\"\": a second string is inserted")
@@ -105,7 +108,22 @@ finding("P37", ["C19"], "open", "gen --parse sqlalchemy_table raises AttributeEr
 finding("P38", ["C19", "C03"], "open", "argparse_ast IR has no 'returns' key; json_schema/sqlalchemy emitters raise KeyError on it")
 
 
+W = []
+
+# ---- C02 witnesses (cell = [format index in checks/C02.FORMATS, style, emit_default_doc])
+A = ["a", {"typ": "int", "doc": "the a"}]
+W.append(("P13", "C02", I([A], cells=[[8, "rest", True]])))
+W.append(("P25", "C02", I([A], cells=[[0, "numpydoc", True]])))
+W.append(("P41", "C02", I([A5], RET, cells=[[0, "google", True]])))
+W.append(("P42", "C02", I([A], doc="", cells=[[0, "google", True]])))
+W.append(("P10", "C02", I([["a", {"typ": "Optional[int]", "doc": "the a", "default": "```(None)```"}]], cells=[[0, "rest", True], [2, "rest", True], [3, "google", True]])))
+
+
 def main():
+    for fid, prop, case in W:
+        e = next(x for x in F if x["id"] == fid)
+        assert prop in e["properties"], (fid, prop)
+        e["witnesses"].setdefault(prop, []).append(case)
     ids = [e["id"] for e in F]
     assert len(ids) == len(set(ids))
     with open(os.path.join(ROOT, "known_findings.json"), "w") as f:
